@@ -20,6 +20,6 @@ Definition run_conn_run (a : args) : args :=
   match o with
   | ORet => [[0; epoch w]; cnt; wlog w] ++ rev (events w) ++ tail
   | ODeadlock => [[1; epoch w]; cnt; wlog w] ++ rev (events w) ++ tail
-  | OPanic n => [[888888]; cnt; wlog w] ++ rev (events w) ++ tail
+  | OPanic n => [[18446744073710440504]; cnt; wlog w] ++ rev (events w) ++ tail
   | OFuel => [[888887]; cnt; wlog w] ++ rev (events w) ++ tail
   end.
